@@ -217,6 +217,31 @@ def r3(ctx):
     ctx.ob('C01.R3', g, 'Pop() on %s is guarded by Any()' % recv, ok and found, 'Pop() without a dominating Any() check on the same stack',
            why + ' (a timed-out waiter has a drained stack: an unguarded Pop raises IndexError and loses the connection)')
   pop_discipline(ctx, 'C01.R3')
+  push_discipline(ctx, 'C01.R3')
+
+
+_PUSHERS = ('AsyncProcessRequest', '_AsyncProcessRequestImpl', '_AsyncProcessRequestToTopic', '_send_msg', '_ProcessQueue', 'StaticDispatchMessage')
+
+
+def push_discipline(ctx, rule):
+  """Frames are pushed on a call's sink stack only while the request travels down (the request methods, the pool's queue hand-off, the dispatcher that creates the
+  stack).  A completion, timeout or fault path that pushes a frame leaves a non-empty stack behind a call that is over."""
+  prog = ctx.prog
+  why = ('"the stack is drained" is how every hop recognises a call that already completed (the pool skips such a waiter, the balancer does not dispatch it): a frame pushed '
+         'after the call was completed makes a dead call look live -- it is sent on a connection, and its reply is handed to whatever that frame holds')
+  bad = []
+  n = 0
+  for g in prog.all_funcs:
+    for c in walk_no_nested(g.node):
+      if isinstance(c, ast.Call) and isinstance(c.func, ast.Attribute) and c.func.attr == 'Push' and g.cls is not None and g.qualname not in ('SinkStack.Push',):
+        n += 1
+        top = g
+        while top.parent is not None:
+          top = top.parent
+        if g.name not in _PUSHERS and top.name not in _PUSHERS:
+          bad.append('%s: %s' % (g.qualname, U(c)[:60]))
+  ctx.ob(rule, prog.func('scales/sink.py', 'ClientTimeoutSink.AsyncProcessRequest'), 'frames are pushed only on the request path', not bad, 'pushed from %s' % bad, why)
+  ctx.floor(rule, 'Push sites', n, 8)
 
 
 def pop_discipline(ctx, rule):
@@ -592,6 +617,17 @@ def r8(ctx):
     ctx.ob('C01.R8', g, 'parks behind open without a deadline timer', bool(armed),
            'the call is chained behind the open result with no timer armed at t+T', why)
   ctx.floor('C01.R8', 'parking paths in DispatchMethodCall', n, 1)
+  # what such a parked call waits for is the open of the pools below; they connect once and report: no waiting by the clock (retry pauses) on that path
+  sl = []
+  for f_ in prog.all_funcs:
+    if not f_.module.rel.startswith('scales/pool/'):
+      continue
+    for c_ in ast.walk(f_.node):
+      if isinstance(c_, ast.Call) and U(c_.func).replace(' ', '') in ('gevent.sleep', 'sleep', 'time.sleep') and not (len(c_.args) == 0 or (isinstance(c_.args[0], ast.Constant) and c_.args[0].value == 0)):
+        sl.append('%s: %s' % (f_.qualname, U(c_)))
+  ctx.ob('C01.R8', g, 'the pools do not pause by the clock while opening or handing out a connection', not sl, 'timed sleeps in the pools: %s' % sl,
+         'a call issued before the client finished opening is held until the pool open completes, with no deadline timer armed yet: every pause on that path (a retry delay after a refused '
+         'connect) is added to the time after which the call can complete at all, beyond t+T')
   # a result that is created must be held by a name: `return AsyncResult(), None` hands out a result that nobody can ever complete, and whatever
   # is chained behind it (the client's open result, a waiter) is parked for good
   n_c = 0
